@@ -161,6 +161,17 @@ def _(lm):
     lm.case("a_sheet_with_rows_never_returns_zero", lambda ex: ([ri >= 21, ret == ri + 9], ret != 0))
 
 
+def canaries(pr):
+    def unsorted(pr):
+        F = A.Fn(pr.tree, G + "__generate_asset")
+        second = next((lp for lp in A.loops_of(F.node) if any(isinstance(c, ast.Call) and isinstance(c.func, ast.Attribute) and c.func.attr == "__generate_asset_year" for c in ast.walk(lp))), None)
+        return [A.bvc("canary", "group", "years_visited_in_dict_order", second is not None and A.expr_eq("years_2_transaction_sets.items()", ast.unparse(second.iter), F.scope), REL)]
+
+    def year_minus_one(pr):
+        F = A.Fn(pr.tree, G + "__generate_asset_year")
+        return [A.bvc("canary", "chain", "predecessor_is_year_minus_one", F.has("previous_year_sheet_name = self.get_tax_sheet_name(asset, year - 1)"), REL)]
+    return [("first_seen_order_must_fail", unsorted), ("year_minus_one_predecessor_must_fail", year_minus_one)]
+
 MANIFEST_ENTRY = {
     "category": "other",
     "text": ("Grouping, per-year sheet, row-writer, chaining and summary contracts discharged over the AST of tax_report_jp.py (buckets by own year, years "
